@@ -321,6 +321,31 @@ def check(ctx: Ctx) -> None:
 
     check_explicit_id(ctx, "C20.e")
 
+    with ctx.obligation("C20.g", "register-rechecks-id") as ob:
+        # allocate_id tests the id long before the (slow) bootstrap finishes: two creations claiming the same id both pass it.
+        # The last line of defence is the test of the gateway's *id* against the group right before it is appended
+        # (an assertion on the pinned tree: it holds in the default mode and vanishes under -O -- recorded, not judged).
+        fmk = repo.merged("multi.Group.makegateway", ["multi.Group._register"])
+        evr = evaluator(repo, fmk)
+        napp = 0
+        bad = set()
+        for (_p, st) in evr.run(limit=40000):
+            for e in st.events:
+                if e.kind == "call" and e.recv == ("sym", "self._gateways") and e.attr in ("append", "insert") and e.args:
+                    napp += 1
+                    G = e.args[-1]
+                    ids = [("attr", G, "id")] + ([("sym", G[1] + ".id")] if G[0] == "sym" else [])
+                    ok = any(any(mentions(t, i) for i in ids) and (mentions(t, ("sym", "self")) or mentions(t, ("sym", "self._gateways")))
+                             for (t, _v) in st.cond[:e.ncond])
+                    if id(e.node) not in bad:
+                        ob.site(fmk, e.node, "the gateway is appended only after its id was tested against the group", ok=ok)
+                    if not ok and id(e.node) not in bad:
+                        bad.add(id(e.node))
+                        ob.violation(fmk, e.node, f"`{show(G)}` is registered without its id having been tested against the group at registration time: two creations that both passed "
+                                                  "allocate_id() before either registered end up as two live gateways with one id", construct="register without id test")
+                    bad.add(id(e.node)) if ok else None
+        ob.require(napp >= 1, "no registration (self._gateways.append) found on makegateway's paths")
+
     with ctx.obligation("C20.f", "lookup-agree") as ob:
         g = repo.cls("Group")
         for name in ("__getitem__", "__len__", "__iter__"):
